@@ -49,6 +49,11 @@ CHECKS["C17"] = dict(engine="simstruct", category="exploration", design_ref="§8
    text="Each structure is driven by seeded operation sequences and compared with a map/set/parent-walk model after every operation; spills of the header map are simulator decisions placed between operations, request time-outs run on the simulated clock; all operation sequences up to a small length are enumerated, longer ones sampled. Oracles are one-sided exactly where the code is free (which peers prune evicts, release of non-leaders).",
    note="Real structures through verif-hooks re-exports; concurrent access to a structure is not explored (the property places spills between operations); OrphanBlockPool::get_block is not covered.")
 
+CHECKS["C05"] = dict(engine="simscript", category="exploration", design_ref="§8 C05, §5 E-SCRIPT",
+   technique="deterministic simulation of script execution interruption: chunk partitions (all single split points for small programs), captured-state rebuilds, and Suspend/Resume/Stop signals delivered at simulator-chosen VM cycle counts through a SimMachine wrapper, compared with the uninterrupted run",
+   text="For a corpus of 45 program cases (VM 0/1/2; exec, spawn/pipe/wait trees incl. generated spawn DAGs, syscalls, secp256k1, TYPE_ID) the uninterrupted verify() gives (verdict, cost); every explored interruption schedule (chunk budgets, state dropped and rebuilt, signal schedules pinned to exact cycle counts, budgets cost-1/cost/cost+1) must give the same verdict and total cycles, budgets below cost must report the cycle limit. One defect fixed (budget restarting after a pause), one recorded as known finding (suspension with unprocessed pipe I/O).",
+   note="Real TransactionScriptsVerifier/Scheduler/ckb-vm with the repo's compiled test programs; mock data loader; the signal path is driven through the generic DefaultMachineRunner seam (SimMachine), tokio runtime hand-driven. Programs are a fixed corpus plus generated spawn DAGs, not all programs.")
+
 NA = {
  "C15": "pure encode/decode and hash functions of one value: no schedule, clock, fault or interleaving for a simulator to own (DESIGN.md §8 C15)",
 }
@@ -87,6 +92,7 @@ def main():
         },
         "engines": [
             {"name": "simfrz", "path": "/verif/sim/simfrz", "serves_properties": ["C09"], "kind_free_text": "in-process deterministic simulation of freezer files with crash-state construction"},
+            {"name": "simscript", "path": "/verif/sim/simscript", "serves_properties": ["C05"], "kind_free_text": "in-process deterministic simulation of script-execution interruption (chunks, captured state, signals at exact cycle counts)"},
             {"name": "simstruct", "path": "/verif/sim/simstruct", "serves_properties": ["C17"], "kind_free_text": "in-process deterministic simulation of sync bookkeeping structures against reference models"},
             {"name": "simnode", "path": "/verif/sim/simnode", "serves_properties": [p for p in CHECKS if CHECKS[p]["engine"] == "simnode"], "kind_free_text": "one real node (RocksDB, Shared, chain stages, verification) per OS process under a seeded step scheduler with a reference chain model; restarts and crashes are new OS processes on the same directories"},
         ],
